@@ -318,6 +318,27 @@ def writeAll (d : Disk) (h : Handle) : List Bytes → Disk × Handle
   | [] => (d, h)
   | bs :: t => writeAll (fwrite d h bs).2.1 (fwrite d h bs).2.2 t
 
+/-! ### what the stream operators hand to `fwrite` -/
+
+/-- `File::operator<<(const char* x)` = `write(x, strlen(x))`, `TextFile::operator<<(const char* x)` = `fputs`:
+    the bytes before the first NUL -/
+def cstr (bs : Bytes) : Bytes := bs.takeWhile (· != 0)
+
+/-- decimal digits, most significant first -/
+def decDigits (n : Nat) : Bytes :=
+  if h : n < 10 then [UInt8.ofNat (48 + n)] else decDigits (n / 10) ++ [UInt8.ofNat (48 + n % 10)]
+termination_by n
+decreasing_by omega
+
+/-- `TextFile::operator<<(const T& x)` = `write(String(x))` for an `int`: `String(int)` is the decimal text
+    (C03's domain; modelled here as its result) -/
+def decimal (i : Int) : Bytes := if i < 0 then 45 :: decDigits i.natAbs else decDigits i.toNat
+
+/-- `File::operator<<(const T& x)` for a 32-bit `x` whose byte order is the host's (`_endian` left at
+    `ENDIAN_NATIVE` on this little-endian host; the swapping branch belongs to C16): `write(&y, 4)` -/
+def le32 (n : Nat) : Bytes :=
+  [UInt8.ofNat n, UInt8.ofNat (n >>> 8), UInt8.ofNat (n >>> 16), UInt8.ofNat (n >>> 24)]
+
 /-- `File::read(p, n)` -/
 def hread (h : Handle) (n : Nat) : Bytes × Handle :=
   if h.sm.canRead then
